@@ -255,6 +255,9 @@ def eval_py(P, mode, gcases, text_route=False, decoy=True, aborts=None):
     grammar, or the next generated grammar) is built before anything is parsed, and every request is first made to the decoy's rule of the same name: state
     keyed on rule names / sources instead of rule objects (shared memo tables) then shows up as a wrong answer."""
     res = []
+    if text_route:
+        import pollute
+        pollute.restate_core(P)     # language-preserving; see there
     arng = random.Random(aborts) if aborts else None
     for gi, (gr, cases) in enumerate(gcases):
         built = None
